@@ -88,12 +88,8 @@ class AxisReduction:
             elif self.mode == "sum":
                 pass
         elif self.mode == "slice":
-            full_arr = img.img.copy()
-            full_arr = np.moveaxis(full_arr, self.index, 0)
-            for i in range(self.index - 1, 0, -1):
-                full_arr = np.moveaxis(full_arr, i - 1, i)
             slice_idx = self.kwargs["slice_idx"]
-            img_arr = full_arr[slice_idx, ...]
+            img_arr = np.take(img.img, slice_idx, axis=self.index)
 
         # Reduce dimensions
         new_dimensions = img.dimensions.copy()
